@@ -394,6 +394,45 @@ func ZZ_C06_QueueLargeFrame() {
 	zzvf.Reach("queue-large-frame")
 }
 
+// Direct mode, connection lost in the MIDDLE of a frame larger than the 2 MiB write buffer (the
+// buffered writer hands such a frame straight to the socket, so the failure surfaces in the write
+// itself, not in the flush): the failed send reports an error, the client reconnects on a later
+// send, and what arrives on the new connection is exactly the whole frames sent after it.
+//vf: paths=200 steps=400000000 visits=20000000
+func ZZ_C06_DirectLargeFrameLoss() {
+	znet.Reset()
+	cut := 48 + []int{0, 30, 100000, 2*1024*1024 + 50}[zzvf.Choose(4)]
+	znet.Plan = []znet.Link{{Cut: cut, ErrAt: cut}}
+	c := zz6Client(false, 0)
+	big := make([]byte, 2*1024*1024+17)
+	for i := range big {
+		big[i] = byte('a' + i%7)
+	}
+	f0, err := zz6Send(c, false, 1)
+	zzvf.Assert(err == nil, "direct-large-loss/first-small-frame-sent")
+	tp := pack.NewTextPack()
+	tp.Pcode, tp.Oid, tp.Time = 300, 5, 7
+	tp.AddText(pack.TextRec{Div: 1, Hash: 2, Text: string(big)})
+	zzvf.Assert(c.Send(tp) != nil, "direct-large-loss/failed-write-is-reported-by-the-send")
+	var want1 []byte
+	sentOK := 0
+	for i := 0; i < 4; i++ {
+		f, e := zz6Send(c, false, i%3)
+		if e == nil {
+			want1 = append(want1, f...)
+			sentOK++
+		}
+	}
+	zzvf.Assert(sentOK >= 2, "direct-large-loss/later-sends-succeed-again")
+	zzvf.Assert(len(znet.Links) == 2, "direct-large-loss/reconnected-exactly-once")
+	if len(znet.Links) == 2 {
+		r0 := znet.Links[0].Rcvd
+		zzvf.Assert(len(r0) == cut && zzvf.Same(r0[:48], f0), "direct-large-loss/first-connection-holds-the-first-frame-and-a-prefix-of-the-large-one")
+		zzvf.Assert(zz6Same(znet.Links[1].Rcvd, want1), "direct-large-loss/new-connection-carries-exactly-the-whole-frames-sent-after-reconnecting")
+	}
+	zzvf.Reach("direct-large-frame-loss")
+}
+
 // Queue mode through the real background loop process(): two accepted packs, then the
 // loop is cancelled while it waits on the empty queue.
 //vf: paths=2000
